@@ -4,6 +4,7 @@ package main
 
 import (
 	"fmt"
+	"runtime/debug"
 	"go/token"
 	"go/types"
 	"strings"
@@ -173,6 +174,11 @@ func (ex *Exec) gorBody(g *GoR, f func()) {
 	func() {
 		defer func() {
 			p = recover()
+			switch p.(type) {
+			case nil, *targetPanic, unsupported, assumeFailed, pathAbort, unwindFail, solverDied, schedAbort:
+			default:
+				p = fmt.Errorf("engine bug: %v\n%s", p, debug.Stack())
+			}
 		}()
 		if ex.sched.aborting {
 			return
@@ -703,7 +709,7 @@ func (ex *Exec) invokeMethod(recv IfaceV, name string, fr *Frame, pos token.Pos)
 	if recv.typ == nil {
 		ex.rtPanic(fr, pos, "invalid memory address or nil pointer dereference")
 	}
-	fn := ex.prog.LookupMethod(recv.typ, nil, name)
+	fn := ex.lookupMethod(recv.typ, name)
 	if fn == nil {
 		panic(unsupported{"no method " + name + " on " + typeStr(recv.typ)})
 	}
